@@ -363,6 +363,11 @@ func (c *ClientConn) Do(req *http.Request, handler func(res *http.Response, conn
 			return
 		}
 
+		// the deadline set on the dialed net.Conn does not carry over to
+		// the nbio.Conn that serves the connection from here on.
+		if confTimeout > 0 {
+			_ = c.conn.SetReadDeadline(deadline)
+		}
 		sendRequest()
 	}
 }
